@@ -48,14 +48,55 @@ Proof.
   - intros [[j d] [[Hk Hv] Hin]]. cbn in Hk, Hv. subst. assumption.
 Qed.
 
-Lemma has_free_false s : has_free s = false -> forall i, is_free (cell s i) = false.
+(* the incremental counter: [nfree] is the number of Free cells below [used] *)
+Definition nfree_ok (s : lstate) : Prop := nfree s = cnt_free (cells s) 0 (N.to_nat (used s)).
+
+Lemma cnt_free_cell s k n : cnt_free (cells s) k (S n) = free_b (cell s k) + cnt_free (cells s) (k + 1) n.
+Proof. reflexivity. Qed.
+
+Lemma cnt_free_ext m m' n : forall k,
+  (forall i, k <= i < k + N.of_nat n -> NM.find i m = NM.find i m') -> cnt_free m k n = cnt_free m' k n.
 Proof.
-  unfold has_free. intros H i. unfold cell. destruct (NM.find i (cells s)) as [c|] eqn:E; [|reflexivity].
-  apply in_elements_cell in E.
-  destruct (is_free c) eqn:F; [|reflexivity].
-  assert (existsb (fun p => is_free (snd p)) (NM.elements (cells s)) = true) as X.
-  { apply existsb_exists. exists (i, c). split; assumption. }
-  congruence.
+  induction n as [|n IH]; intros k H; cbn [cnt_free]; [reflexivity|].
+  rewrite H by lia. rewrite (IH (k + 1)); [reflexivity|]. intros i Hi. apply H. lia.
+Qed.
+
+Lemma cnt_free_snoc m n : forall k,
+  cnt_free m k (S n) = cnt_free m k n + free_b (match NM.find (k + N.of_nat n) m with Some c => c | None => Never end).
+Proof.
+  induction n as [|n IH]; intros k.
+  - cbn [cnt_free]. replace (k + N.of_nat 0) with k by lia. lia.
+  - cbn [cnt_free] in *. rewrite (IH (k + 1)).
+    replace (k + 1 + N.of_nat n) with (k + N.of_nat (S n)) by lia. lia.
+Qed.
+
+Lemma cnt_free_zero m n : forall k, cnt_free m k n = 0 ->
+  forall i, k <= i < k + N.of_nat n -> is_free (match NM.find i m with Some c => c | None => Never end) = false.
+Proof.
+  induction n as [|n IH]; intros k H i Hi; [lia|]. cbn [cnt_free] in H.
+  destruct (N.eq_dec i k) as [->|Hne].
+  - unfold free_b in H. destruct (is_free _); [lia|reflexivity].
+  - apply (IH (k + 1)); [lia|lia].
+Qed.
+
+Lemma cnt_free_none m n : forall k,
+  (forall i, k <= i < k + N.of_nat n -> is_free (match NM.find i m with Some c => c | None => Never end) = false) ->
+  cnt_free m k n = 0.
+Proof.
+  induction n as [|n IH]; intros k H; cbn [cnt_free]; [reflexivity|].
+  unfold free_b at 1. rewrite H by lia. rewrite IH; [reflexivity|]. intros i Hi. apply H. lia.
+Qed.
+
+(* changing one cell inside the range *)
+Lemma cnt_free_update m i c n : forall k, k <= i < k + N.of_nat n ->
+  cnt_free (NM.add i c m) k n + free_b (match NM.find i m with Some x => x | None => Never end) =
+  cnt_free m k n + free_b c.
+Proof.
+  induction n as [|n IH]; intros k Hk; [lia|]. cbn [cnt_free].
+  destruct (N.eq_dec i k) as [->|Hne].
+  - rewrite NMF.add_eq_o by reflexivity.
+    rewrite (cnt_free_ext (NM.add k c m) m n (k + 1)); [lia|]. intros j Hj. apply NMF.add_neq_o. lia.
+  - rewrite NMF.add_neq_o by assumption. specialize (IH (k + 1)). lia.
 Qed.
 
 (* ------------------------------------------------------------------ *)
@@ -77,14 +118,29 @@ Definition top_le (s s' : lstate) : Prop := forall i, (top (cell s i) <= top (ce
 Record LInv (s : lstate) : Prop := {
   J_beyond : forall i, used s <= i -> cell s i = Never;
   J_below : forall i, i < used s -> cell s i <> Never;
-  J_pos : forall i, cell s i <> Never -> (1 <= top (cell s i))%Z }.
+  J_pos : forall i, cell s i <> Never -> (1 <= top (cell s i))%Z;
+  J_nfree : nfree_ok s }.
 
 Lemma LInv_init : LInv l_init.
 Proof.
-  split; unfold l_init, cell; cbn [cells used]; intros i.
+  split; [| | |reflexivity]; unfold l_init, cell; cbn [cells used]; intros i.
   - intros _. rewrite NMF.empty_o. reflexivity.
   - lia.
   - rewrite NMF.empty_o. congruence.
+Qed.
+
+Lemma has_free_false s : LInv s -> has_free s = false -> forall i, is_free (cell s i) = false.
+Proof.
+  intros [Hb Hl Hp Hn] H i. unfold has_free in H. apply negb_false_iff, N.eqb_eq in H.
+  destruct (N.lt_ge_cases i (used s)) as [Hi|Hi]; [|rewrite Hb by assumption; reflexivity].
+  unfold nfree_ok in Hn. rewrite H in Hn. symmetry in Hn.
+  apply (cnt_free_zero _ _ _ Hn i). lia.
+Qed.
+
+Lemma no_free_has_free s : LInv s -> (forall i, is_free (cell s i) = false) -> has_free s = false.
+Proof.
+  intros [_ _ _ Hn] H. unfold has_free. unfold nfree_ok in Hn. rewrite Hn.
+  rewrite cnt_free_none; [reflexivity|]. intros i _. apply H.
 Qed.
 
 Lemma alive_cell s e : l_is_alive s e = true ->
@@ -99,8 +155,14 @@ Proof. intros H. destruct (alive_cell _ _ H) as [kp [E|E]]; rewrite E; auto. Qed
 
 Lemma set_cell_LInv s i c : LInv s -> cell s i <> Never -> c <> Never -> (1 <= top c)%Z -> LInv (set_cell s i c).
 Proof.
-  intros [Hb Hl Hp] Hi Hc Ht. split; intros j; rewrite cell_set, ?used_set; destruct (N.eq_dec i j) as [->|Hne]; auto.
-  intros Hj. exfalso. apply Hi. apply Hb. assumption.
+  intros [Hb Hl Hp Hn] Hi Hc Ht.
+  assert (i < used s) as Hiu.
+  { destruct (N.lt_ge_cases i (used s)) as [|Hge]; [assumption|]. exfalso. apply Hi. apply Hb. assumption. }
+  split; [| | |]; try (intros j; rewrite cell_set, ?used_set; destruct (N.eq_dec i j) as [->|Hne]; auto; fail).
+  - intros j; rewrite cell_set, ?used_set; destruct (N.eq_dec i j) as [->|Hne]; auto. intros Hj. lia.
+  - unfold nfree_ok in *. cbn [set_cell nfree cells used].
+    pose proof (cnt_free_update (cells s) i c (N.to_nat (used s)) 0) as X. fold (cell s i) in X.
+    rewrite Hn. lia.
 Qed.
 
 Lemma kill_LInv l : forall s pos, LInv s -> LInv (fst (l_kill s l pos)).
@@ -133,12 +195,25 @@ Qed.
 
 Lemma create_LInv pend s i : LInv s -> valid_choice s i = true -> LInv (fst (l_create pend s i)).
 Proof.
-  intros [Hb Hl Hp] Hv.
+  intros [Hb Hl Hp Hn] Hv.
   assert (1 <= top (cell s i) + 1)%Z as Hg.
   { destruct (valid_choice_cases _ _ Hv) as [[g E]|[E _]].
     - assert (1 <= top (cell s i))%Z by (apply Hp; congruence). lia.
     - rewrite E. cbn [top]. lia. }
-  split; intros j; rewrite cell_create, ?used_create.
+  split; [| | |]; try (intros j; rewrite cell_create, ?used_create).
+  4:{ unfold nfree_ok in *. unfold l_create. cbn [fst nfree cells used].
+      set (c := if pend then Pend (top (cell s i) + 1) false else Live (top (cell s i) + 1) false).
+      assert (free_b c = 0) as Hc0 by (unfold c; destruct pend; reflexivity).
+      destruct (valid_choice_cases _ _ Hv) as [[g E]|[E [E2 _]]].
+      - assert (i < used s) as Hlt.
+        { destruct (N.lt_ge_cases i (used s)) as [|Hge]; [assumption|]. rewrite Hb in E by assumption. discriminate. }
+        destruct (N.eqb_spec i (used s)); [lia|].
+        pose proof (cnt_free_update (cells s) i c (N.to_nat (used s)) 0) as X. fold (cell s i) in X. rewrite Hn. lia.
+      - subst i. rewrite N.eqb_refl. replace (N.to_nat (used s + 1)) with (S (N.to_nat (used s))) by lia.
+        rewrite cnt_free_snoc. replace (0 + N.of_nat (N.to_nat (used s))) with (used s) by lia.
+        rewrite NMF.add_eq_o by reflexivity. rewrite Hc0, E. cbn [free_b is_free].
+        rewrite (cnt_free_ext (NM.add (used s) c (cells s)) (cells s)); [lia|].
+        intros j Hj. apply NMF.add_neq_o. lia. }
   - intros Hj. destruct (N.eq_dec i j) as [->|Hne].
     + exfalso. destruct (valid_choice_cases _ _ Hv) as [[g E]|[E [E2 _]]].
       * assert (j < used s) as Hlt.
@@ -159,7 +234,7 @@ Proof. destruct c as [|g|g [|]|g [|]]; reflexivity. Qed.
 
 Lemma merge_LInv s : LInv s -> LInv (fst (l_merge s)).
 Proof.
-  intros [Hb Hl Hp]. split; intros j; rewrite cell_merge, ?used_merge.
+  intros [Hb Hl Hp Hn]. split; [| | |reflexivity]; intros j; rewrite cell_merge, ?used_merge.
   - intros Hj. rewrite Hb by assumption. reflexivity.
   - intros Hj. rewrite merge_cell_never. auto.
   - rewrite merge_cell_never, merge_cell_top. auto.
@@ -533,7 +608,7 @@ Proof.
       - rewrite cnt_occ_full.
         + rewrite cell_create. replace (0 + N.of_nat (N.to_nat (used s))) with (used s) by lia.
           destruct (N.eq_dec (used s) (used s)); [|congruence]. destruct pend; cbn [occupied]; lia.
-        + intros j Hj. pose proof (has_free_false _ Hnf j) as Hf.
+        + intros j Hj. pose proof (has_free_false _ HI Hnf j) as Hf.
           assert (cell s j <> Never) as Hn by (apply (J_below _ HI); lia).
           destruct (cell s j); cbn in *; congruence.
       - intros j Hj. rewrite cell_create. destruct (N.eq_dec (used s) j); [lia|reflexivity]. }
